@@ -49,6 +49,7 @@ func runC05(ctx *core.Ctx) {
 	reuseAfterRehash(ctx, "G8")
 	truncGuard(ctx, "G9", true)
 	expectedIDReadOnly(ctx, "G10")
+	indexNilMeansWritten(ctx, "G11")
 	ctx.Rule("R1", "index rewrite: opened without O_TRUNC/O_APPEND, one write, and always truncated to the entry length after a successful write (so a later Put repairs an over-long damaged entry)", 2)
 	indexRewriteRules(ctx)
 }
